@@ -202,6 +202,15 @@ pub fn c08(s: &mut Sess, rng: &mut Rng, n: u64) {
             s.op(&format!("put {} ={}", hx(&k), hx(c)));
             map.insert(k, c.to_vec());
         }
+        // one case in four also holds a LARGE referenced blob (verification hashes it differently
+        // above some size: an intact one must not be reported, whatever its size)
+        if rng.chance(1, 4) {
+            let len = *rng.pick(&[131_072u64, 131_073, 262_145, 1_048_577]);
+            let spec = format!("~3:{len}");
+            s.op(&format!("put {} {}", hx(b"z"), spec));
+            map.insert(b"z".to_vec(), crate::worker::chunk_bytes(&spec));
+            s.out.count("c08.large-referenced-blob");
+        }
         s.op("close");
         s.op("tracedrop");
         let refd: BTreeSet<String> = map.values().map(|c| blake3::hash(c).to_hex().to_string()).collect();
